@@ -45,12 +45,12 @@ def _filter_consts_compared(ctx: Ctx, f: Func, var: str, within: Optional[ast.AS
                     out.add(ctx.ce.eval(r, f.module))
                 except NotConst:
                     pass
-            if norm(l) == var and isinstance(n.ops[0], ast.In) and isinstance(r, (ast.List, ast.Tuple, ast.Set)):
-                for e in r.elts:
-                    try:
-                        out.add(ctx.ce.eval(e, f.module))
-                    except NotConst:
-                        pass
+            if norm(l) == var and isinstance(n.ops[0], ast.In):
+                try:
+                    vals = ctx.ce.eval(r, f.module)
+                    out |= set(vals)
+                except (NotConst, TypeError):
+                    pass
     return out
 
 
